@@ -219,6 +219,16 @@ def run_case(case, ctx):
             doc = odml.Document()
             dest.parent = doc
             src.parent = odml.Document()
+        # earlier successful merges into nodes of either tree: the trees under test then carry that history
+        for pre in case.get("pre", ()):
+            node = dest if pre["side"] == "dest" else src
+            try:
+                for k, i in pre["path"]:
+                    node = node.sections[i]
+                node.merge(gen.build_sec(dec(pre["extra"])), strict=False)
+                rec.count("pre-merge", "%s@%d:done" % (pre["side"], len(pre["path"])))
+            except Exception as exc:
+                rec.count("pre-merge", "%s@%d:%s" % (pre["side"], len(pre["path"]), type(exc).__name__))
         db, sb = model.model_of(dest), model.model_of(src)
         from checks.c01_xml import no_ids
         share = {c["name"] for c in db["sections"]} & {c["name"] for c in sb["sections"]} or \
@@ -394,6 +404,31 @@ def planted_cases():
         d, s = template(), template()
         s["sections"][0]["sections"][1]["type"] = "other"
         cases.append({"dest": enc(d), "src": enc(s), "strict": strict, "planted": ["same-name-other-type", "", 2, "sec"]})
+        for depth, (di, si) in enumerate([((1,), (1,)), ((0, 1), (0, 1))]):
+            # types that differ in letter case only are different types
+            for dt, st in (("t", "T"), ("Stim/White", "stim/white")):
+                d, s = template(), template()
+                dn, sn = d, s
+                for i in di:
+                    dn, sn = dn["sections"][i], sn["sections"][i]
+                dn["type"], sn["type"] = dt, st
+                cases.append({"dest": enc(d), "src": enc(s), "strict": strict,
+                              "planted": ["same-name-type-differs-in-case", dt, depth + 1, "sec"]})
+        # a source (or dest) that has itself been the destination of an earlier merge, at every Section of the template
+        extra = S("x", props=[P("p", "int", [77]), P("fresh", "string", ["f"])], secs=[S("sub", props=[P("k", "int", [5])])])
+        for path, k in sites(template()):
+            if k != "sec":
+                continue
+            for side in ("src", "dest"):
+                for lacking in (True, False):
+                    d, s = template(), template()
+                    if lacking and path:
+                        # dest lacks the top-level branch that holds the earlier merged node: it is copied
+                        other = d if side == "src" else s
+                        other["sections"] = [c for j, c in enumerate(other["sections"]) if j != path[0][1]]
+                    cases.append({"dest": enc(d), "src": enc(s), "strict": strict, "pre": [
+                        {"side": side, "path": [list(x) for x in path], "extra": enc(extra)}],
+                        "planted": ["earlier-merge-into-%s" % side, "lacking" if lacking else "present", len(path), "sec"]})
         d, s = template(), S("root", props=[P("new1", "string", ["n"])], secs=[S("zz", props=[P("k", "int", [1])])])
         cases.append({"dest": enc(d), "src": enc(s), "strict": strict, "planted": ["disjoint", "", 0, "sec"]})
         d, s = S("root"), template()
@@ -442,8 +477,8 @@ def random_pair(rng):
                         n[a] = None
                     elif q < 0.35:
                         n[a] = rng.choice(["Some Text", "some  text", "Other"])
-                if rng.random() < 0.04 and path:
-                    n["type"] = "other"
+                if rng.random() < 0.06 and path:
+                    n["type"] = rng.choice(["other", "T", "t/sub"])
         # drop / rename some children
         def prune(sec):
             sec["properties"] = [p for p in sec["properties"] if rng.random() > 0.2]
@@ -479,6 +514,15 @@ def run(ctx):
         rng.seed("C13|%s|%d" % (ctx.seed, j))
         d, s = random_pair(rng)
         case = {"dest": enc(d), "src": enc(s), "strict": rng.random() < 0.5, "attached": rng.random() < 0.3, "j": j}
+        if rng.random() < 0.25:
+            pre = []
+            for side, t in (("src", s), ("dest", d)):
+                spaths = [pth for pth, k in sites(t) if k == "sec"]
+                for _ in range(rng.choice([0, 1, 1, 2])):
+                    pre.append({"side": side, "path": [list(x) for x in rng.choice(spaths)], "extra": enc(
+                        S("x", props=[P(rng.choice(["p", "fresh", "q"]), "string", ["f%d" % j])],
+                          secs=[S(rng.choice(["sub", "a", "aa"]), props=[P("k", "int", [5])])]))})
+            case["pre"] = pre
         run_case(case, ctx)
         if ctx.time_left() < 0:
             break
